@@ -22,6 +22,7 @@ func init() {
 		x.Nat("crc16", x.MustConst(dir, "CRC16"))
 		x.Nat("crc32", x.MustConst(dir, "CRC32"))
 		x.Nat("dtnVersion", x.MustConst(dir, "dtnVersion"))
+		x.Nat("isFragment", x.MustConst(dir, "IsFragment"))
 
 		// package-level tables
 		for _, name := range []string{"crc16table", "crc32table"} {
@@ -51,6 +52,14 @@ func init() {
 			x.StrList(low+"Guard", c03Guard(x.Skeleton(fd)))
 			// what is fed into the CRC buffer
 			x.StrList(low+"CrcBuffLines", c03Grep(x.Skeleton(fd), "crcBuff"))
+			// CRC type must be known and must agree with the array length (fragment flag likewise)
+			checks := []string{}
+			for _, l := range x.Skeleton(fd) {
+				if strings.Contains(l, "emptyCRC(") || strings.Contains(l, "hasCrc") || strings.Contains(l, "hasFrag") {
+					checks = append(checks, strings.TrimLeft(l, " "))
+				}
+			}
+			x.StrList(low+"TypeChecks", checks)
 
 			fm, err := x.Func(dir, recv, "MarshalCbor")
 			if err != nil {
